@@ -94,6 +94,16 @@ gen::FuncParams make_func_params(const RoundSpec& s, uint32_t i, bool global_con
   return fp;
 }
 
+// The finished program is laid out (section offsets, virtual sizes, cross-section fixups): part of what recycled and
+// fresh objects must agree on.
+bool layout(CodeHolder& code, std::vector<uint32_t>& errors) {
+  Error err = code.flatten();
+  if (err != Error::kOk && sim::run_faults_fired_total() > 0) return false;
+  errors.push_back(uint32_t(err));
+  if (err == Error::kOk) { err = code.resolve_cross_section_fixups(); if (err != Error::kOk && sim::run_faults_fired_total() > 0) return false; errors.push_back(uint32_t(err)); }
+  return true;
+}
+
 // Generates the round's program with the given emitter. Returns true when generation ran to completion (finalized).
 // `errors` receives the error code of every call, which is part of what must be identical.
 bool generate(const RoundSpec& s, CodeHolder& code, BaseEmitter& e, gen::RecordingHandler& eh, std::vector<uint32_t>& errors, bool allow_abandon) {
@@ -109,7 +119,10 @@ bool generate(const RoundSpec& s, CodeHolder& code, BaseEmitter& e, gen::Recordi
     if (!ok) return false;
     Error err = e.finalize();
     errors.push_back(uint32_t(err));
-    return err == Error::kOk;
+    if (err != Error::kOk) return false;
+    // no virtual register may keep pointing into the (reset) memory of the register allocator
+    for (VirtReg* v : static_cast<BaseCompiler&>(e).virt_regs()) SIM_CHECK(!v->has_work_reg(), "c16:residue-work-reg", "virtual register %u still references its work register after finalize()", v->id());
+    return layout(code, errors);
   }
   gen::Program p = make_program(s);
   gen::ApplyCtx ctx;
@@ -135,7 +148,7 @@ bool generate(const RoundSpec& s, CodeHolder& code, BaseEmitter& e, gen::Recordi
     errors.push_back(uint32_t(err));
     if (err != Error::kOk) return false;
   }
-  return true;
+  return layout(code, errors);
 }
 
 void setup_emitter(BaseEmitter& e, const RoundSpec& s, StringLogger* logger, gen::RecordingHandler* eh) {
